@@ -348,8 +348,20 @@ def run(R):
         out["dis"].append({"why": "the simple-planner differential run did not complete", "log": txt[-1500:]})
     elif int(m2.group(1)) > 0:
         out["dis"].append({"why": "Model/SimplePlan.v differs from scanner.rs::create_simple_plan", "log": txt[txt.find("DISAGREEMENTS"):][:2500]})
+    # the regex mode of the same planner (Model/SimplePlanRx.v): the oracle table comes from Python's re on a pattern subset on which it
+    # agrees with the regex crate; everything else - line handling, offsets, the code's own $i expansion, stats, the preview - is compared
+    rc, txt, dt = core.sh(["python3", str(core.VERIF / "lib" / "simpleplanrx_difftest.py"), str(R.seed + 37), "80" if quick else "1200"],
+                          env=dict(env, RN_WORK=str(core.BUILD / "simpleplanrx_work")), timeout=3000)
+    m1 = __import__("re").search(r"compared (\d+) hunks in (\d+) cases", txt)
+    m2 = __import__("re").search(r"DISAGREEMENTS: (\d+)", txt)
+    sprx = {"hunks_compared": int(m1.group(1)) if m1 else 0, "cases": int(m1.group(2)) if m1 else 0,
+            "disagreements": int(m2.group(1)) if m2 else None}
+    if not m1 or not m2 or int(m1.group(1)) == 0:
+        out["dis"].append({"why": "the regex-mode simple-planner differential run did not complete", "log": txt[-1500:]})
+    elif int(m2.group(1)) > 0:
+        out["dis"].append({"why": "Model/SimplePlanRx.v differs from scanner.rs::create_simple_plan (regex mode)", "log": txt[txt.find("DISAGREEMENTS"):][:2500]})
     R.coverage["input_distribution"] = {"plans": out["plans"], "hunks_checked": out["hunks"], "by_planner": out["by_planner"],
-                                        "enhanced_matcher_stream": est, "simple_planner_model": spt}
+                                        "enhanced_matcher_stream": est, "simple_planner_model": spt, "simple_planner_regex_model": sprx}
     R.disagreements = len(out["dis"])
     for f in out["fail"][:3]:
         R.violation(f["why"], {"kind": "impl_failure", **f})
